@@ -231,6 +231,79 @@ class TiRoundTrip(Contract):
         return "treeinfo %s(%s) written and re-read" % (self.s.cls[1], ", ".join("%s=%s" % (k, concretise.py_repr(v)) for k, v in inputs.items()))
 
 
+
+# ([release]/short is read leniently: when absent it defaults to the name -- derived from the code, the format description lists it
+# without saying either way)
+REQUIRED_OPTIONS = {"treeinfo.BaseProduct": ["name", "version", "short"], "treeinfo.Release": ["name", "version"],
+                    "treeinfo.Stage2": [], "treeinfo.Media": ["discnum", "totaldiscs"]}
+ALL_OPTIONS = {"treeinfo.BaseProduct": ["name", "version", "short"], "treeinfo.Release": ["name", "version", "short", "is_layered"],
+               "treeinfo.Stage2": ["mainimage", "instimage"], "treeinfo.Media": ["discnum", "totaldiscs"]}
+
+
+class TiReader(Contract):
+    """X.deserialize(parser) of a current-version treeinfo whose [section] holds ANY subset of the documented options, each with an
+    arbitrary text value (C07): a normal return means every REQUIRED option was present and the loaded object satisfies every
+    documented rule.  (A reader that invents a value for a missing required option, or lets an out-of-domain value through, fails.)"""
+
+    def __init__(self, src, T, name):
+        self.src, self.T, self.s, self.sname = src, T, TI_SECTIONS[name], name
+        self.name = "productmd.%s.deserialize[any subset of options, any text]" % name
+        self.key = "de:" + name
+
+    def setup(self, E):
+        s = self.s
+        ti, o = _mk(E, s)
+        parser = _new_parser(E)
+        E.call(E.getattr_(parser, "add_section"), [s.section])
+        present, vals = {}, {}
+        for opt in ALL_OPTIONS[self.sname]:
+            present[opt] = bool(E.decide(E.fresh("has_%s" % opt, z3.BoolSort())))
+            vals[opt] = SV(sym.Val.VStr(z3.Const("opt.%s" % opt, sym.S)))
+            if present[opt]:
+                E.call(E.getattr_(parser, "set"), [s.section, opt, vals[opt]])
+        return {"o": o, "parser": parser, "present": present, "vals": vals}
+
+    def call(self, E, st):
+        return E.call(E.getattr_(st["o"], "deserialize"), [st["parser"]])
+
+    def post(self, E, st, out):
+        if out.kind == "raise":
+            return {"returns_only_with_required_options": True}
+        return {"returns_only_with_required_options": all(st["present"][k] for k in REQUIRED_OPTIONS[self.sname]),
+                "loaded_object_is_valid": self.s.valid(self.T, st["o"])}
+
+    def concretise(self, model, st):
+        return {"options": dict((k, concretise.value_of(model, v)) for k, v in st["vals"].items() if st["present"][k])}
+
+    def sample_inputs(self, rng):
+        import itertools
+        opts = ALL_OPTIONS[self.sname]
+        pool = {"discnum": ["2", "x", "", "0"], "totaldiscs": ["3", "1.5", ""], "is_layered": ["true", "false", "1", "maybe"]}
+        for mask in itertools.product((False, True), repeat=len(opts)):
+            base = dict((o, pool.get(o, ["text"])[0]) for o, m in zip(opts, mask) if m)
+            yield {"options": base}
+            for o in base:
+                for alt in pool.get(o, ["", " "])[1:]:
+                    yield {"options": dict(base, **{o: alt})}
+
+    def native_eval(self, inputs):
+        s = self.s
+        ti, o = _mk_nat(self.src, s)
+        parser = self.src.mods["common"].SortedConfigParser()
+        parser.add_section(s.section)
+        for k, v in inputs["options"].items():
+            if not isinstance(v, str) or "\n" in v or v.strip() != v:
+                return ("skip", None), {}
+            parser.set(s.section, k, v)
+        nat = native_call(o.deserialize, parser)
+        if nat[0] == "raise":
+            return nat, {"returns_only_with_required_options": True}
+        return nat, {"returns_only_with_required_options": all(k in inputs["options"] for k in REQUIRED_OPTIONS[self.sname]),
+                     "loaded_object_is_valid": bool(s.valid(self.T, o))}
+
+    def describe(self, inputs):
+        return "treeinfo %s.deserialize of [%s] with options %r" % (self.s.cls[1], self.s.section, inputs["options"])
+
 def contracts(src, T):
     out = []
     for n in TI_SECTIONS:
@@ -779,6 +852,8 @@ def contracts(src, T):          # noqa: F811
                 if mode == "flat" and main and nvar == 1:
                     continue
                 out.append(GeneralMirrors(src, T, nvar, main, mode))
+    for n in TI_SECTIONS:
+        out.append(TiReader(src, T, n))
     out.append(TreeRoundTrip(src, T))
     out += [TreeVariantsReaderValid(src, T, k, mode) for k in TI_VARIANT_KEYS for mode in ("corrupt", "delete")]
     return out
